@@ -16,15 +16,15 @@ KANI = {
     'C07': ['to_range_all_forms'],
 }
 
-def _p(level, explanation='', assumptions=None, rule='', dev_profile=False, kani_quick=False):
+def _p(level, explanation='', assumptions=None, rule='', dev_profile=False, kani_quick=False, extra_modules=None):
     return {'level': level, 'explanation': explanation, 'assumptions': assumptions or [], 'rule': rule,
-            'dev_profile': dev_profile, 'kani_quick': kani_quick}
+            'dev_profile': dev_profile, 'kani_quick': kani_quick, 'extra_modules': extra_modules or []}
 
 PROPS = {
     'C01': _p('proof', explanation='compose proved to be the pushout (universal property)'),
-    'C02': _p('proof', explanation='strict tensor proved to be juxtaposition'),
-    'C03': _p('exploration'),
-    'C04': _p('proof', explanation='dagger/spider definitions proved'),
+    'C02': _p('proof', explanation='strict tensor proved to be juxtaposition; associativity and unit on the nose as lemmas over that contract'),
+    'C03': _p('exploration', explanation='left/right unit of composition and self-inverse symmetry proved as lemmas over the contracts of compose / identity / twist (module laws); the other laws bounded', extra_modules=['laws']),
+    'C04': _p('proof', explanation='dagger/spider definitions proved; dagger involutive and distributing over tensor on the nose as lemmas over the contracts'),
     'C05': _p('proof', explanation='wf + type postconditions of the strict cone'),
     'C06': _p('proof', explanation='every finite-function / semifinite-function operation under a Verus contract stating its set-theoretic table; coequalizer against the universal property (is_coeq); coequalizer_universal iff constant on fibres'),
     'C07': _p('proof', explanation='every array primitive of the Vec backend under a Verus contract stating its scalar definition; bodies extracted from /repo each run', kani_quick=True),
@@ -36,11 +36,11 @@ PROPS = {
     'C13': _p('exploration'),
     'C14': _p('exploration'),
     'C15': _p('proof', explanation='kahn proved against its layering contract (loop invariant over a counting model); converse / flatmap / operation_adjacency proved to compute the dependency relation; layer() proved to satisfy the local form of the property, from which the path form follows by verified lemmas; grouping (layered_operations) bounded'),
-    'C16': _p('exploration'),
+    'C16': _p('proof', explanation='eval, eval_order and layer_function_to_layers proved: None iff a dependency cycle exists; otherwise the memory solves the circuit equations (inputs stored, every hyperedge interpreted once on its source values) for every interpretation the user closure computes; the solution is unique (lemma_solution_unique)'),
     'C17': _p('proof', explanation='is_monogamous and degrees proved; is_acyclic proved: true iff no node reaches itself (kahn + node adjacency under contract, cycle lemmas)', dev_profile=True),
     'C18': _p('proof', explanation='validate iff + error variants, is_monomorphism and is_convex_subgraph (two-layer search: loop invariant, soundness and completeness against step-indexed reachability, termination) proved'),
     'C19': _p('exploration'),
-    'C20': _p('exploration'),
+    'C20': _p('exploration', extra_modules=['laws']),
 }
 
 
@@ -81,6 +81,14 @@ EXTRA_PROPS = {
     'graph::node_adjacency': ['C20'],
     'graph::node_adjacency_from_incidence': ['C20'],
     'indexed_coproduct::IndexedCoproduct::flatmap': ['C16', 'C17', 'C18', 'C20'],
+    'hypergraph_arrow::HypergraphArrow::is_convex_subgraph': ['C20'],
+    'hypergraph_arrow::HypergraphArrow::is_monomorphism': ['C20'],
+    'hypergraph_arrow::successors': ['C20'],
+    'hypergraph_arrow::filter_unvisited': ['C20'],
+    'open_hypergraph::OpenHypergraph::is_monogamous': ['C20'],
+    'eval::eval': ['C20'],
+    'eval::eval_order': ['C20'],
+    'eval::layer_function_to_layers': ['C20'],
     'layer::Hypergraph::is_acyclic': ['C20'],
     'layer::OpenHypergraph::is_acyclic': ['C20'],
     'graph::operation_adjacency': ['C20'],
